@@ -223,6 +223,13 @@ C01_SERVE = [
 ]
 
 
+C01_AUTOHEAD = [
+    ["A 1", "R HEAD /{name}", "RG - /s", "RG - /{x}/{y}"],
+    ["RG - /u/{id}", "A 1", "RG - /v", "R HEAD /w"],
+    ["A 1", "RG - /u/{id}", "A 0", "RG - /w/{x}", "R POST /u/{z}"],
+]
+
+
 def routing_jobs(pid, tier, seed):
     rng = random.Random(seed * 7919 + (1 if pid == "C01" else 2))
     jobs = []
@@ -258,6 +265,14 @@ def routing_jobs(pid, tier, seed):
         # the same decision at ServeHTTP level: routing is by the decoded URL.Path whatever the client's spelling (URL.RawPath)
         for prog in C01_SERVE:
             jobs.append(router_job(prog, 4 if tier == "quick" else 6, method="GET", raw=1, tag="serve"))
+    if pid == "C02":
+        # "exactly what the pattern captured" presupposes one value per name: a name repeated along a route must be refused
+        for h in (["/{N0}/s/{N1}"], ["/{N0}/s/{N1}/t/{N2}"], ["/{N0}/{N1: /x+/}/t/{N2: **}"], ["/s/{N0}/t/u/{N1}"], ["/{N0: **}/s/{N1}"]):
+            jobs.append({"pkg_short": "route", "body": "VH_C08_register", "params": {"history": "\n".join(h), "slots": 3, "family": "c02-unique-names"}})
+    if pid == "C01":
+        # GET routes doubled for HEAD by AutoHead compete with HEAD routes by the same priority rules
+        for prog in C01_AUTOHEAD:
+            jobs.append(router_job(prog, 3 if tier == "quick" else 5, method="?", tag="autohead"))
     return jobs
 
 
@@ -278,7 +293,7 @@ ROUTING_ASSUME = [
 
 for _pid in ("C01", "C02"):
     SPECS[_pid] = Spec(
-        _pid, ROUTE_FILES + ["route/oracle_api.go", "flamego/router.go"], (lambda p: (lambda tier, seed: routing_jobs(p, tier, seed)))(_pid),
+        _pid, ROUTE_FILES + ["route/oracle_api.go", "route/c08.go", "flamego/router.go"], (lambda p: (lambda tier, seed: routing_jobs(p, tier, seed)))(_pid),
         assumptions=ROUTING_ASSUME, bounds=routing_bounds,
         rule="one job per route set; within a job every request path up to the bound is covered by the solver: each explored "
              "path of the real Tree.Match is one equivalence class of request paths; a class is non-trivial when the "
@@ -304,6 +319,10 @@ C07_PROGS = [
     (["R GET /{m: **, capture: 1}", "R GET /{m: **, capture: 3}/a/{n: **, capture: 2}"], "GET"),
     (["R PUT /"], "?"),
     (["R GET /a", "H 0 X-K=v", "R GET /{x}", "R POST /a"], "?"),
+    # routes declared in nested groups: the chain run is the chosen route's own (its groups' handlers, then its handler)
+    (["G /ad 2", "G /v1", "R GET /us", "R GET /se", "R POST /us", "E", "R GET /{x}", "G /v2", "R GET /us", "E", "E", "R GET /ad/v1/{y}"], "?", "/ad/v", 4),
+    (["G /a", "G /b", "G /c", "R GET /x", "R GET /y", "E", "G /d 3", "R GET /x", "R GET /y", "R GET /z", "E", "E", "E"], "GET", "/a/b/", 4),
+    (["G /g", "R GET /a", "R GET /b", "R GET /c", "R GET /d", "E", "G /h", "R * /a", "E"], "GET", "/", 3),
 ]
 
 C07_PRIOR = [
@@ -324,8 +343,11 @@ def c07_jobs(tier, seed):
     for rs in C07_TREES:
         jobs.append({"pkg_short": "route", "setup": "VH_Route_setup", "body": "VH_Route_match",
                      "params": {"routes": "\n".join(rs), "n": n, "prefix": "", "family": "c07-tree"}, "max_paths": 300000})
-    for prog, method in C07_PROGS:
-        jobs.append(router_job(prog, n - 1 if method == "?" else n, method=method, twice=1, tag="c07-router"))
+    for prog, method, *rest in C07_PROGS:
+        if rest:
+            jobs.append(router_job(prog, rest[1] if tier == "quick" else rest[1] + 2, method=method, prefix=rest[0], twice=1, tag="c07-groups"))
+        else:
+            jobs.append(router_job(prog, n - 1 if method == "?" else n, method=method, twice=1, tag="c07-router"))
     # history independence: an earlier request for the same path with other headers / another method
     for prog, pfx, pn in C07_PRIOR:
         jobs.append(router_job(prog, pn if tier == "quick" else pn + 2, method="?", prefix=pfx, hv=1, twice=1, prior=1, tag="c07-prior"))
@@ -371,6 +393,9 @@ C09_PROGS = [
     (["RS * /w", "H 0 X-K=v"], "?", 2),
     (["RS get,post /lc", "R PUT /lc", "H 0 X-K=v"], "?", 3),
     (["RS Get /m/{x}", "RS POST,get /m/s", "H 1 X-K=v"], "?", 4),
+    # a constrained route and an unconstrained one with the same literal at the same place (optional forms)
+    (["R GET /?u", "H 0 X-K=v", "R GET /u"], "GET", 3), (["R GET /?ap", "H 0 X-K=v", "R GET /ap/?v"], "GET", 5),
+    (["R GET /u", "H 0 X-K=v", "R GET /?u"], "GET", 3),
     # a constraint on a match-all route: it must gate the route however many segments the bind takes
     (["R GET /a/{m: **}", "H 0 X-K=v", "R GET /a/{x}/{y}"], "GET", 4, "/a/"),
     (["R GET /{m: **}", "H 0 X-K=v"], "GET", 4),
@@ -435,6 +460,8 @@ C10_PROGS = [
     (["R GET /q/r", "R GET /q/?r"], "GET", 5),
     (["R GET /q/?r", "R GET /q/r", "H 0 X-K=v"], "GET", 5),
     (["R GET /a/?", "R GET /a/"], "GET", 4),
+    # a constrained static route with lower-priority candidates behind it
+    (["R GET /u", "H 0 X-K=v", "R GET /{n}"], "GET", 3), (["R GET /u", "H 0 X-K=v", "R GET /{**}"], "GET", 3), (["R GET /u", "H 0 X-K=v", "R GET /?u"], "GET", 3),
     # Headers() with no pairs on routes that must stay off the fast paths
     (["R GET /?u", "H 0 "], "GET", 3), (["R GET /a/?b", "H 0 X-K=v", "H 0 "], "GET", 5), (["R GET /q", "H 0 X-K=v", "H 0 ", "R GET /{x}"], "GET", 3),
     # several methods registered at once where only some of them are shadowed by an earlier optional route
@@ -516,7 +543,7 @@ SPECS["C03"] = Spec(
 
 
 # --------------------------------------------------------------------------- C14
-C14_SHAPES = ["string", "bytes", "error", "int-string", "teapot", "int-bytes", "int-error", "string-error", "bytes-error", "ptr-string", "int-ptr-string", "custom", "custom-zero", "late-custom"]
+C14_SHAPES = ["string", "bytes", "error", "int-string", "teapot", "int-bytes", "int-error", "string-error", "bytes-error", "ptr-string", "int-ptr-string", "named-bytes", "custom", "custom-zero", "late-custom"]
 
 
 def c14_jobs(tier, seed):
@@ -646,7 +673,7 @@ def c11_jobs(tier, seed):
         masks = [("111111010", 0), ("111100110", 1), ("001111001", 1), ("101000111", 1), ("010110101", 0), ("111111111", 0)]
     jobs = [{"pkg_short": "flamego", "body": "VH_C11_program", "params": {"mask": m, "lens": l}, "max_paths": 3000000} for m, l in masks]
     jobs.append({"pkg_short": "flamego", "body": "VH_C11_program", "max_paths": 3000000,
-                 "params": {"mask": "01000010011" if tier == "quick" else "01100110011", "lens": 0}})
+                 "params": {"mask": "010000100111" if tier == "quick" else "011001100111", "lens": 0}})
     # group prefixes that share characters with each other and with the route paths, an empty prefix, a bind in a prefix
     for g1, g2 in (("/gh", "/h"), ("/p", "/pp"), ("/g", ""), ("/{g}", "/hg")):
         jobs.append({"pkg_short": "flamego", "body": "VH_C11_program", "max_paths": 3000000,
@@ -663,7 +690,7 @@ SPECS["C11"] = Spec(
         "same chosen route / order / parameters for arbitrary requests then follows from C01-C03, decided on flat registrations (composition is an argument, not a query)",
         "a group function that panics is outside the claim",
     ],
-    bounds=lambda tier: {"nesting": 3, "statements": "11 template statements; per job a subset (mask) is symbolic, the others off", "handler_list_len": "0..2 (jobs with lens=1) else 1", "spare_capacity": "0 or 2 (symbolic)"},
+    bounds=lambda tier: {"nesting": 3, "statements": "12 template statements; per job a subset (mask) is symbolic, the others off", "handler_list_len": "0..2 (jobs with lens=1) else 1", "spare_capacity": "0 or 2 (symbolic)"},
     rule="every combination of statement guards, list lengths, capacity and AutoHead toggles of the template",
 )
 
@@ -789,6 +816,7 @@ def c16_jobs(tier, seed):
         add("", "/a/../", nn=4)
         add("pub", "/pub/../", nn=4)
     jobs.append({"pkg_short": "flamego", "body": "VH_C16_dir", "params": {"n": 4 if tier == "quick" else 6}, "max_paths": 400000})
+    jobs.append({"pkg_short": "flamego", "body": "VH_C16_default", "params": {"n": 2 if tier == "quick" else 3}, "max_paths": 400000})
     return jobs
 
 
